@@ -285,6 +285,48 @@ func oracleC10(r *Result, run *sessionRun, pipelined bool) {
 			violation(r, "a handler ran for an inconsistent or asynchronous request", run, "no call", e.raw)
 		}
 	}
+	// valid traffic keeps being served whatever other connections (of this and of earlier batches, on the same process) sent:
+	// every leading well-formed request of this connection is answered
+	want, got := expectedAnswered(run.cfg, run.arrs), 0
+	for _, e := range evs {
+		if e.kind == "respond" {
+			got++
+		}
+	}
+	if got < want {
+		violation(r, "a well-formed request on a connection that sent nothing malformed before it was not answered", run, fmt.Sprintf("%d responses", want), fmt.Sprintf("%d responses", got))
+	}
+}
+
+// expectedAnswered: how many of the connection's leading requests the property says are answered, from the script alone
+func expectedAnswered(cfg sCfg, arrs []sArr) int {
+	if cfg.sa == "fail" {
+		return 0
+	}
+	n := 0
+	for _, a := range arrs {
+		if a.kind != 'R' {
+			break
+		}
+		q := a.req
+		if int(q.bc) != len(q.items) || q.async || !q.writeOk {
+			break
+		}
+		if q.cred != 0 && (!cfg.ra || !strings.HasPrefix(q.auth, "ok")) {
+			break
+		}
+		unenc := false
+		for _, it := range q.items {
+			if registered(cfg, it.op) && it.beh.kind == 's' && !it.beh.enc {
+				unenc = true
+			}
+		}
+		if unenc {
+			break
+		}
+		n++
+	}
+	return n
 }
 
 // ---- C15 --------------------------------------------------------------------------------------------------
